@@ -375,6 +375,11 @@ def _main_run(mod, pid, args, seed):
     nworkers = max(1, args.workers)
     known = load_known(pid)
     active_known = sorted({e["predicate"] for e in known if e.get("status") == "known" and e.get("predicate")})
+    # development aid (never set by MANIFEST commands): switch listed exclusions off to harvest shrunk replays
+    ignore = set(filter(None, os.environ.get("VERIF_IGNORE_KNOWN", "").split(",")))
+    if ignore:
+        active_known = [p for p in active_known if p not in ignore and "all" not in ignore]
+        known = [e for e in known if e.get("replay") and os.path.exists(os.path.join(ROOT, e["replay"]))]
     exit_code = 0
     printed = []
     known_report = []
